@@ -17,8 +17,9 @@ PROPS = {
         "py": "pymon.c01check",
         "budget_s": (25, 300),
         "min_nontrivial": {"quick": 2000, "thorough": 20000},
+        "must_observe": ["log:computed_operator_programs"],
         "rule": "Typed random programs over the classic operator set (opcodes 1-36 without 29/30; non-canonical ints, leading-zero paths, ((X) . raw) forms, recursion/accumulator loops, unknown multi-byte opcodes, softfork guards, structural mutations) and "
-                "directed interpreter corner cases, run by the real interpreter with default flags at budget 5e7 and at {C, C-1, C+1, random}; every logged run is replayed by pymon/refclvm.py (independent interpreter after the historical Python clvm with the named "
+                "directed interpreter corner cases, programs built at run time whose operator atom (and an inner quote) is produced by substr / concat / arithmetic for every classic opcode (heap atoms, views, computed small integers instead of inline literals), run by the real interpreter with default flags at budget 5e7 and at {C, C-1, C+1, random}; every logged run is replayed by pymon/refclvm.py (independent interpreter after the historical Python clvm with the named "
                 "adapters div-floor, softfork-guard, u64-cost) and success/failure, cost and result bytes are compared. The reference must first reproduce the repository's 6000+ op-test vectors. Programs that execute an opcode assigned after the classic set are skipped. "
                 "Disagreements that exist only under a rule known from memory (`recalled`: nil terminator of the inner list in ((X . t)...), as_iter failure on improper raw operand lists) are reported as UNCORROBORATED-DIVERGENCE, not as violations. "
                 "Non-trivial: reference succeeds and applied >=2 operators.",
@@ -53,9 +54,9 @@ PROPS = {
         "py_multi": "pymon.c05check",
         "budget_s": (25, 300),
         "min_nontrivial": {"quick": 20000, "thorough": 200000},
-        "must_observe": ["kind_op", "kind_prog", "kind_path", "log:boundary_rows", "log:sha256_precomputed_rows", "log:path_rows", "log:pre_eval_callbacks", "log:counters_runs"],
+        "must_observe": ["kind_op", "kind_prog", "kind_path", "log:boundary_rows", "log:carry_list_blocks", "log:sha256_precomputed_rows", "log:path_rows", "log:pre_eval_callbacks", "log:counters_runs"],
         "rule": "The same seeded workload runs in three builds of the library (default, --features no-fastpath, --features counters,pre-eval with an observe-only pre/post-eval callback): (a) + - * > = logand sha256 on every pair (and triples, pairs at every position) of "
-                "machine-word boundary integers 0,+-1,+-2^k-1,+-2^k,+-2^k+1 stored inline and forced to the heap, budgets crossing inside the loops; (b) sha256 (1 n) for n in 0..47 in all spellings/arities; (c) path lookups for every bit length 0..40 x {canonical, "
+                "machine-word boundary integers 0,+-1,+-2^k-1,+-2^k,+-2^k+1 stored inline and forced to the heap, budgets crossing inside the loops; (a') every operand list of length 3 (and a quarter of those of length 4) over 19 values at the byte-length boundaries of inline atoms (carries and sign changes in the middle of a list) through + - * logand logior logxor concat sha256 in both cost models; (b) sha256 (1 n) for n in 0..47 in all spellings/arities; (c) path lookups for every bit length 0..40 x {canonical, "
                 "raw magnitude i.e. negative spelling, redundant leading zeros} x {inline, heap} over an environment where every 40-step path exists; (d) random typed programs and random operator calls. Records (result hash, cost, error, atom/pair/heap counts) are compared line by line; "
                 "in the diag build run_program_with_counters must additionally equal run_program_with_pre_eval. Non-trivial: successful cases (distinct keys).",
         "assumptions": COMMON_ASSUMPTIONS + ["all three builds execute the identical generator (own PRNG, no dependence on crate features); lock-step is verified on (case, kind, key) for every line"],
@@ -96,9 +97,9 @@ PROPS = {
         "budget_s": (25, 300),
         "exhaustive_key": "log:exhaustive_opcodes",
         "min_nontrivial": {"quick": 5000, "thorough": 50000},
-        "must_observe": ["log:exhaustive_opcodes", "log:overflow_corner_cases", "expected_fail:product exceeds 2^32-1", "expected_fail:reserved", "expected_fail:pair argument", "expected_fail:cost", "expected_fail:strict mode"],
+        "must_observe": ["log:exhaustive_opcodes", "log:overflow_corner_cases", "log:dialect_neighbourhood_opcodes", "expected_fail:product exceeds 2^32-1", "expected_fail:reserved", "expected_fail:pair argument", "expected_fail:cost", "expected_fail:strict mode"],
         "rule": "EXHAUSTIVE 1- and 2-byte opcodes x 6 argument shapes x both cost models through op_unknown; directed overflow corner (two ~800 KB operands, multiplier chosen so that the true product is >= 2^64); random 1-8 byte opcodes (ffff prefixes, leading zeros, "
-                "5/6-byte) x 0-12 atoms incl. multi-MB operands and pairs at each position x budgets x flag sets, through op_unknown, ChiaDialect::op and RuntimeDialect::op (opcodes the dialect assigns are skipped). Oracle: pymon/c09check.py evaluates the published rule with "
+                "5/6-byte) x 0-12 atoms incl. multi-MB operands and pairs at each position x budgets x flag sets, through op_unknown, ChiaDialect::op and RuntimeDialect::op (opcodes the dialect assigns are skipped); through both dialects additionally the whole last-byte neighbourhood of the two 4-byte secp opcodes and the adjacent multipliers, every 1-byte opcode and the 2- and 3-byte zero-padded spellings of every byte, each with no arguments, atoms, a valid signature triple and a corrupted one, lenient and strict. Oracle: pymon/c09check.py evaluates the published rule with "
                 "unbounded integers: nil + (multiplier+1)*base; failure for empty/ffff/>5-byte opcodes, pair arguments, base > budget, product > 2^32-1, strict mode. Non-trivial: multi-byte opcode or non-empty argument list.",
         "assumptions": COMMON_ASSUMPTIONS,
     },
@@ -108,8 +109,8 @@ PROPS = {
         "py": "pymon.c10check",
         "budget_s": (25, 300),
         "min_nontrivial": {"quick": 5000, "thorough": 50000},
-        "must_observe": ["log:program_level_calls", "new:sha256tree", "old:sha256tree", "new:modpow", "old:*", "new:bls_verify"],
-        "rule": "Every ChiaDialect operator called directly on signature-aware argument lists (sizes 0..MBs, leading zeros, negatives, long lists, DAG arguments for sha256tree) under {old,new} cost model x {num-bigint, MALACHITE}, plus (op (q . a)...) through run_program. For every "
+        "must_observe": ["log:program_level_calls", "log:carry_list_calls", "new:sha256tree", "old:sha256tree", "new:modpow", "old:*", "new:bls_verify"],
+        "rule": "Every ChiaDialect operator called directly on signature-aware argument lists (sizes 0..MBs, leading zeros, negatives, long lists, DAG arguments and atoms of 1023..1.1M bytes for sha256tree) under {old,new} cost model x {num-bigint, MALACHITE}, plus every operand list of length 3 (and a quarter of length 4) over 19 inline-atom boundary values through + - * logand logior logxor, plus (op (q . a)...) through run_program. For every "
                 "SUCCESSFUL call pymon/c10check.py recomputes the documented cost from argument sizes / python-int accumulators / result size (refclvm operator formulas, validated against 6000+ op-test vectors; size-only formulas for BLS/secp) and compares it with the charged cost; "
                 "program-level calls add the closed-form overhead 1+20n. Non-trivial: every successful call with a distinct (operator, model, argument-size) key.",
         "assumptions": COMMON_ASSUMPTIONS + ["where docs/cost-model.md and the source comments disagree (new-model add/sub and logand/ior/xor use atom length, not limbs, for the argument) the source + v2 vectors are taken as the documented formula"],
@@ -174,8 +175,8 @@ PROPS = {
         "total": True,
         "exhaustive_key": "exhaustive_all_bytes",
         "min_nontrivial": {"quick": 5000, "thorough": 50000},
-        "must_observe": ["exhaustive_all_bytes", "exhaustive_dense_alphabet", "accepted_by_all", "rejected_by_all"],
-        "rule": "EXHAUSTIVE: every byte string of length <=2 (quick) / <=3 (thorough) and every string over the dense token alphabet {ff,fe,80,00,01,7f,81,bf,c0,fb,fc,fd} up to length 6 (quick) / 7 (thorough); then valid serialisations mutated at token level, "
+        "must_observe": ["exhaustive_all_bytes", "exhaustive_dense_alphabet", "length_prefix_boundary_atoms", "accepted_by_all", "rejected_by_all"],
+        "rule": "EXHAUSTIVE: every byte string of length <=2 (quick) / <=3 (thorough) and every string over the dense token alphabet {ff,fe,80,00,01,7f,81,bf,c0,fb,fc,fd} up to length 6 (quick) / 7 (thorough); then atoms of every length at and around the length-prefix boundaries (0x3f/0x40, 0x1fff/0x2000, 0xfffff/0x100000) written with every prefix width that can hold the length (minimal and over-long) with the payload present, alone and inside a pair; valid serialisations mutated at token level, "
                 "inflated length prefixes, 100k-deep nesting and noise. Per input: node_from_stream, parse_triples(hashes on) and tree_hash_from_stream must all accept or all reject, consume the same length, describe the same tree (rebuilt from the triples) and "
                 "carry the model tree hash for every node; peak heap requested per decoder (counting global allocator) <= 2 MiB + 64*len; is_canonical_serialization == (whole input consumed AND re-serialisation reproduces it). ASan build repeats the workload. "
                 "Non-trivial: input accepted by the decoders.",
@@ -236,9 +237,9 @@ PROPS = {
         "py": "pymon.wheelmon C28",
         "budget_s": (25, 300),
         "min_nontrivial": {"quick": 5000, "thorough": 50000},
-        "must_observe": ["stream_decode_accepted", "stream_decode_rejected", "serializer_cases", "int_cases", "curry_cases", "triple_parser_cases", "boundary_atoms"],
+        "must_observe": ["stream_decode_accepted", "stream_decode_rejected", "serializer_cases", "int_cases", "curry_cases", "triple_parser_cases", "boundary_atoms", "constructor:from_bytes(backrefs)", "compressed_blob_differs_from_classic"],
         "rule": "Rust log: classic decoder on every dense-alphabet string up to length 5, long-length-prefix probes, mutated/valid/random blobs; node_to_bytes of generated trees; new_number bytes for every integer in [-40000,40000), word boundaries and random big values. Python side: "
-                "sexp_from_stream must accept exactly the inputs node_from_bytes accepts and yield the same tree; sexp_to_bytes == node_to_bytes (plus atoms at every length-prefix boundary up to 1 MiB+1 against ser_legacy); int_to_bytes/int_from_bytes == Rust; the pure-python triple parser "
+                "sexp_from_stream must accept exactly the inputs node_from_bytes accepts and yield the same tree; sexp_to_bytes == node_to_bytes (plus atoms at every length-prefix boundary up to 1 MiB+1 against ser_legacy), also for the same tree built by every Program constructor (from_bytes of a classic / back-reference / 2026 blob, fromhex, parse, from_bytes_with_cursor, from_bytes_backrefs, from_bytes_2026) and serialised alone, through stream() and embedded in another tree; int_to_bytes/int_from_bytes == Rust; the pure-python triple parser "
                 "(native import disabled) == native; curry_hash == tree hash of curry, uncurry(curry(m,a)) == (m,a), and running the curried program == running the module with the arguments prepended. Non-trivial: accepted decoder inputs, serialiser/int/curry cases.",
         "assumptions": COMMON_ASSUMPTIONS + ["the Rust classic serialiser is reached through the wheel's ser_legacy where no Rust log exists (itself checked by C26)"],
     },
